@@ -21,3 +21,16 @@ Theorem C19_set_visit : forall T bits idx,
   visit_set T bits idx = map (fun n => Some (Z.testbit bits n)) idx.
 Proof. exact visit_set_spec. Qed.
 Print Assumptions C19_set_visit.
+
+From Sbepp Require Import EnumVisit.
+
+(* visiting an enum value yields the tag of the validValue with that constant,
+   or the unknown tag exactly when no validValue has it *)
+Theorem C19_enum_visit_value_tag : forall vals v i,
+  NoDup vals -> nth_error vals i = Some v -> enum_visit vals v = Some i.
+Proof. exact enum_visit_unique. Qed.
+Print Assumptions C19_enum_visit_value_tag.
+
+Theorem C19_enum_visit_unknown : forall vals v, enum_visit vals v = None <-> ~ In v vals.
+Proof. exact enum_visit_none. Qed.
+Print Assumptions C19_enum_visit_unknown.
